@@ -488,6 +488,10 @@ impl Disk
     /// Read any file into the sparse file format.  Use `FileImage.sequence()` to flatten the result
     /// when it is expected to be sequential.
     fn read_file(&mut self,name: &str) -> Result<super::FileImage,DYNERR> {
+        if crate::escaped_ascii_to_bytes(name,true).len() > 30 {
+            log::error!("DOS filename is too long");
+            return Err(Box::new(Error::SyntaxError));
+        }
         let vconst = self.get_vtoc_constants()?;
         let (mut next_tslist,ftype) = match self.get_tslist_sector(name) {
             Ok(Some((ts,typ))) => (ts,typ),
